@@ -94,10 +94,12 @@ func NewSchema(config SchemaConfig) (Schema, error) {
 		initialTypes = append(initialTypes, SchemaType)
 	}
 
-	// assume that user will never add a nil object to config
 	initialTypes = append(initialTypes, config.Types...)
 
 	for _, ttype := range initialTypes {
+		if err = invariant(ttype != nil, "Schema types must not contain nil."); err != nil {
+			return schema, err
+		}
 		if ttype.Error() != nil {
 			return schema, ttype.Error()
 		}
@@ -185,16 +187,32 @@ func (gq *Schema) AddImplementation() error {
 //Edited. To check add Types at RunTime..
 //Append Runtime schema to typeMap
 func (gq *Schema) AppendType(objectType Type) error {
+	if err := invariant(objectType != nil, "Schema types must not contain nil."); err != nil {
+		return err
+	}
 	if objectType.Error() != nil {
 		return objectType.Error()
 	}
-	var err error
-	gq.typeMap, err = typeMapReducer(gq, gq.typeMap, objectType)
+	// Extend a copy of the type map: a type that turns out to be unacceptable
+	// (half-way through its fields, or when the interface implementations are
+	// checked) must leave the schema as it was.
+	previous := *gq
+	typeMap := make(TypeMap, len(gq.typeMap)+1)
+	for name, ttype := range gq.typeMap {
+		typeMap[name] = ttype
+	}
+	typeMap, err := typeMapReducer(gq, typeMap, objectType)
 	if err != nil {
 		return err
 	}
+	gq.typeMap = typeMap
 	//Now Add interface implementation..
-	return gq.AddImplementation()
+	if err = gq.AddImplementation(); err != nil {
+		// AddImplementation builds fresh tables, the previous ones are intact
+		*gq = previous
+		return err
+	}
+	return nil
 }
 
 func (gq *Schema) QueryType() *Object {
